@@ -10,10 +10,15 @@
 // also enumerated directly over {0,1,2}^3. size.go adds the SIZE families
 // (file sizes up to 512 KiB, a gzip file cut at every byte / with every
 // header and trailer bit flipped, up to 130 path arguments, 40 nested
-// directories, 1025 directory entries).
+// directories, 1025 directory entries). spell.go adds the SPELLING family (one
+// file named through every spelling the operating system defines: ./, //, /./,
+// dir/../, absolute, symbolic links, `..` behind a symbolic link to a directory
+// elsewhere; as path argument, directory part of a glob, -R argument) and the
+// SIZELESS family (named pipes, procfs files: stat size 0 with content).
 package main
 
 import (
+	"bytes"
 	"encoding/json"
 	"fmt"
 	"os"
@@ -242,6 +247,26 @@ func worker(w *runner.W) {
 		w.SetCase(func() any { return c })
 		e.runSized(c)
 	}
+	// SPELLING and SIZELESS families (spell.go)
+	for _, c := range spellCases(w.Quick()) {
+		if onlyFam != "" && c.Family != onlyFam {
+			continue
+		}
+		caseNo++
+		if !w.Owns(caseNo) {
+			continue
+		}
+		if w.Expired() {
+			return
+		}
+		if e.hangs >= 3 {
+			w.Cap("enumeration stopped after 3 hanging processes in one worker")
+			return
+		}
+		c := c
+		w.SetCase(func() any { return c })
+		e.runSpell(c)
+	}
 	if w.Quick() || onlySize {
 		return
 	}
@@ -343,11 +368,27 @@ func (e *env) judge(dir, treeDesc string, c Case, exp *expectation) {
 	w := e.w
 	args := buildArgs(c, exp)
 	c.Cmdline = "rare " + shellJoin(args) + " < " + exp.stdinName
+	for _, f := range exp.fifos {
+		f.start()
+	}
 	res := runRare(e.bin, dir, e.home, args, filepath.Join(dir, exp.stdinName), 2)
 	w.Add("process_runs", 1)
+	feedNote := ""
+	for _, f := range exp.fifos {
+		f.finish() // never blocks: see fifoFeed.finish
+		feedNote += fmt.Sprintf("\nwriter of %s: %d of %d bytes written, error %v", filepath.Base(f.path), f.written, len(f.data), f.err)
+	}
+	if exp.procfs != "" {
+		// a procfs file is judged only when it read the same before and after the run
+		after, err := os.ReadFile(exp.procfs)
+		if err != nil || !bytes.Equal(after, exp.procfsBefore) {
+			w.Add("procfs_unstable_skipped", 1)
+			return
+		}
+	}
 
 	viol := func(sig, msg string) {
-		detail := fmt.Sprintf("%s\ncmd (cwd holds tree t/): %s\ntree: %s\nexit=%d\nstdout=%q\nstderr=%q", msg, clip(c.Cmdline, 400), treeDesc, res.exit, clip(res.stdout, 600), clip(res.stderr, 600))
+		detail := fmt.Sprintf("%s\ncmd (cwd holds tree t/): %s\ntree: %s\nexit=%d\nstdout=%q\nstderr=%q%s", msg, clip(c.Cmdline, 400), treeDesc, res.exit, clip(res.stdout, 600), clip(res.stderr, 600), feedNote)
 		w.Violation(sig, detail, c)
 	}
 	pre := "C06/" + c.Variant + "/"
@@ -369,7 +410,25 @@ func (e *env) judge(dir, treeDesc string, c Case, exp *expectation) {
 	nontrivial := len(exp.inputs) > 0
 	w.Eval(nontrivial)
 	bad := false
-	report := func(sig, msg string) { bad = true; viol(sig, msg) }
+	// families with a sigScope file ONE violation per case, under the scope and
+	// the class of the first failed clause; the detail lists the failed clauses
+	var failed []string
+	firstClass := ""
+	report := func(sig, msg string) {
+		bad = true
+		if exp.sigScope == "" {
+			viol(sig, msg)
+			return
+		}
+		if firstClass == "" {
+			firstClass = sigClass(strings.TrimPrefix(sig, pre))
+		}
+		if len(failed) < 6 {
+			failed = append(failed, sig+": "+msg)
+		} else if len(failed) == 6 {
+			failed = append(failed, "...")
+		}
+	}
 
 	// accept-set for what the statement leaves open
 	if exp.refusedOK && res.exit == 2 && strings.TrimSpace(res.stdout) == "" && strings.Contains(res.stderr, "stdin") {
@@ -419,7 +478,10 @@ func (e *env) judge(dir, treeDesc string, c Case, exp *expectation) {
 	// exit status
 	wantExit, reason := exp.exitStatus()
 	if !exp.exitAmbiguous {
-		if res.exit != wantExit {
+		if res.exit == 2 && wantExit != 2 && exp.mayFailReported(res.stderr) {
+			// an input the statement is silent about was reported as unreadable
+			w.Add("optional_input_reported_as_read_error", 1)
+		} else if res.exit != wantExit {
 			report(fmt.Sprintf("%sexit/want%d-got%d/%s", pre, wantExit, res.exit, reason),
 				fmt.Sprintf("exit status %d, the statement demands %d (%s)", res.exit, wantExit, reason))
 		}
@@ -432,12 +494,34 @@ func (e *env) judge(dir, treeDesc string, c Case, exp *expectation) {
 			report(pre+"stderr/error-not-mentioned/"+k, "an input failed but stderr does not mention an error")
 		}
 	}
+	w.Add("optional_input_read", int64(exp.optionalRead))
+	w.Add("optional_input_not_read", int64(exp.optionalSkipped))
+	if bad && exp.sigScope != "" {
+		viol(pre+exp.sigScope+"/"+firstClass, strings.Join(failed, "\n"))
+	}
 	if !bad {
 		w.Outcome(c.Variant, fmt.Sprint(res.exit), obsKey)
 		if w.WantSample() && len(exp.inputs) >= 2 && exp.firstErrorKind() != "" {
 			w.Sample(c)
 		}
 	}
+}
+
+// sigClass maps a signature of the grid oracle (without the C06/<variant>/
+// prefix) to the class of the failed clause.
+func sigClass(rest string) string {
+	switch {
+	case strings.HasPrefix(rest, "content/"):
+		return "wrong-content"
+	case strings.HasPrefix(rest, "exit/"):
+		return "exit-status"
+	case strings.HasPrefix(rest, "stderr/"):
+		return "error-not-mentioned"
+	}
+	if i := strings.IndexByte(rest, '/'); i >= 0 {
+		return rest[:i]
+	}
+	return rest
 }
 
 func clip(s string, n int) string {
@@ -509,6 +593,38 @@ func checkFilter(c Case, exp *expectation, res runResult, report func(sig, msg s
 			continue
 		}
 		got[parts[0]] = append(got[parts[0]], lt{n, parts[2]})
+	}
+	// source names: the statement fixes only <stdin>; lines reported under an
+	// accepted alias of an expected source (input.aliases) that is not itself
+	// an expected source count for that source
+	isSrc := map[string]bool{}
+	for _, in := range exp.inputs {
+		isSrc[in.src] = true
+	}
+	for _, in := range exp.inputs {
+		if len(got[in.src]) > 0 {
+			continue
+		}
+		for _, a := range in.aliases {
+			if !isSrc[a] && len(got[a]) > 0 {
+				got[in.src] = got[a]
+				delete(got, a)
+				break
+			}
+		}
+	}
+	// an input the statement is silent about (input.optional): read exactly
+	// once, or not at all
+	for i, in := range exp.inputs {
+		if !in.optional {
+			continue
+		}
+		if len(got[in.src]) == 0 {
+			exp.inputs[i] = &input{src: in.src, kind: in.kind, aliases: in.aliases, mayFail: in.mayFail}
+			exp.optionalSkipped++
+		} else {
+			exp.optionalRead++
+		}
 	}
 	// an input the statement lets be classified either way (see input.alt):
 	// when exactly the bytes of the other reading were delivered, that reading
@@ -685,6 +801,10 @@ func replay(w *runner.W, raw json.RawMessage) {
 	}
 	e := newEnv(w)
 	defer e.close()
+	if c.Family == famSpelling || c.Family == famSizeless {
+		e.runSpell(c)
+		return
+	}
 	if c.Family != "" {
 		e.runSized(c)
 		return
@@ -702,7 +822,7 @@ func main() {
 			return "real rare binary, one process per case: every directory tree t/ with 0..3 entries (ordered, named e0..e2) over the kinds {" + strings.Join(allKinds, ", ") +
 				"} (1+11+121+1331 trees; a subdir entry holds in.log and sub/deep.log) x argument forms {" + strings.Join(allForms, ", ") +
 				"} (paths: every entry by name; glob: t/*; recursive: -R t; recursive-paths: -R with every entry by name; twice: every entry named twice; dir-as-file: t itself then every entry; dash/none: standard input carrying the bytes of the single entry, trees of <=1 file entries only; dash-first: `-` followed by every entry, filter only; literal-name-with-pattern-characters: every entry by name plus an existing file t/x[1].log named literally, which as a pattern does not match itself; glob-by-extension: `t/*.log t/e?.gz` for trees holding at least one entry of each extension - these two forms with trees of up to 2 entries in the quick tier) x -z {off,on} x --readers=--workers {1,2} x command {filter -e '{src}:{line}:{0}' (every line printed), histogram -m '" + histoRegex + "' -e {1} -e {2} --csv}; " +
-				sizeRule(tier) +
+				sizeRule(tier) + spellRule(tier) +
 				map[string]string{"quick": "", "thorough": "thorough adds every tree with 4 entries (14641) x forms {paths, glob, recursive} x filter x -z x --readers {1,2}; "}[tier] +
 				"standard input always comes from a file (a sentinel line when it must not be read). Oracle: multiset of source:line:text (filter) / exported counts (histogram) against an independent reference, exit status, error mention on stderr. Plus helpers.DetermineErrorState over {0,1,2}^3 (and a nil aggregator). non-trivial = at least one named input exists in the reference (a case whose inputs are all absent only checks the exit status)"
 		},
@@ -715,6 +835,10 @@ func main() {
 				"size families, -z: a file whose gzip header is damaged (cut inside the header, a flipped header bit that makes it undecodable) and a text file that merely starts with the gzip magic may be taken either for gzip content (then it fails while being read: error reported, exit status 2, any prefix of what a decoder delivers) or for a non-gzip file (then every byte from the first to the last is delivered and the exit status is the usual one); damage behind an intact header (body, trailer, second member) is gzip content that fails while being read; a file a gzip decoder decodes without error (e.g. a flipped bit in the modification time or the name) is gzip content and must be delivered decompressed",
 				"`-` followed by path arguments: reading standard input and every path, or refusing the command line (exit 2, nothing on stdout, a message on stderr) are both accepted",
 				"file names contain no glob metacharacters and no colon",
+				"spelling family: what a path names is what the operating system resolves for the argument as given (os.ReadFile / os.ReadDir on the unchanged string; `..` behind a symbolic link to a directory is resolved relative to the link's target); the statement fixes the source name only for standard input, so the lines of a file are accepted under the argument as given, under its lexically cleaned form and under the form with every symbolic link resolved (relative or absolute) - the CONTENT must be that of the file the operating system resolves; symbolic-link loops are not enumerated",
+				"-R: what is reached only through a symbolic link below a walked directory (a link to a file, to a directory, a dangling link) is not \"a regular file below a directory argument\": reading it exactly once, not reading it, and - for a link that cannot be read as a file - reporting it as a read error (exit status 2, named on stderr) are all accepted; the same for `-R link` where link is a symbolic link to a directory without a trailing slash (directory argument or path argument: the statement is silent); `-R link/` and `-R link/..` are directory arguments",
+				"sizeless family: a named pipe is fed by the harness (the writer opens it for writing, which succeeds when the process opens it for reading, writes once, closes); a writer the process never serves is released after the process has exited; named pipes are named once per command line and never put below a -R directory (not regular files; nothing would ever write to them); procfs files are judged only when the harness read identical bytes before and after the run, a machine without /proc skips them (counters procfs_absent_skipped / procfs_unstable_skipped)",
+				"spelling and sizeless families file one violation per case under C06/filter/<family>/<shape>/<class of the first failed clause: wrong-content, exit-status, error-not-mentioned>",
 			}
 		},
 		Worker:         worker,
